@@ -92,7 +92,8 @@ RItemIn == /\ T = "I("
            /\ prefix' = Append(prefix, "B") /\ second' = Append(second, "I")
            /\ ctx' = Append(ctx, [kind |-> "I", fresh |-> TRUE])
            /\ IF ~tight /\ ~suppress
-                THEN lines' = Append(lines, [p |-> Strip(Append(second, "I")), b |-> "blank", exp |-> ExpNonBlank]) /\ UNCHANGED suppress
+                \* the separator line is the continuation prefix without trailing spaces (before the D50 repair: str.strip(), which also dropped a leading list indent)
+                THEN lines' = Append(lines, [p |-> IF Fixed THEN RStrip(Append(second, "I")) ELSE Strip(Append(second, "I")), b |-> "blank", exp |-> ExpNonBlank]) /\ UNCHANGED suppress
                 ELSE /\ suppress' = (IF ~tight THEN FALSE ELSE suppress) /\ UNCHANGED lines
            /\ UNCHANGED <<skip, tight>> /\ Adv
 RECURSIVE DropBare(_)
